@@ -1643,4 +1643,490 @@ theorem pointers_located_consumed (m : Mode) (v : J) (t : List Ev) (h : locPL m.
   | ffmulti => simp only [report]; cases (runL Mode.ffmulti.policy t).1 <;> simp [Res.errs]
 
 
+
+
+
+
+theorem locP_of_located (π : Policy) :
+    (∀ ev : Ev, ∀ v, ev.located v → ev.locP π v) ∧ (∀ _ts : List (List Ev), True) ∧
+    (∀ t : List Ev, ∀ v, locatedL v t → locPL π v t) := by
+  refine Ev.passes.mutual_induct
+    (motive_1 := fun ev => ∀ v, ev.located v → ev.locP π v) (motive_2 := fun _ => True)
+    (motive_3 := fun t => ∀ v, locatedL v t → locPL π v t) ?f ?ch ?co ?nil ?cons ?nil2 ?cons2
+  case f => intro e f v h; simpa [Ev.located, Ev.locP] using h
+  case ch =>
+    intro tok sub ih v h
+    simp only [Ev.located] at h
+    obtain ⟨x, hx, hs⟩ := h
+    simp only [Ev.locP]
+    exact Or.inr ⟨x, hx, ih x hs⟩
+  case co => intro k e subs _ v h; simpa [Ev.located, Ev.locP] using h
+  case nil => intro v _; simp [locPL]
+  case cons =>
+    intro e es ih1 ih2 v h
+    simp only [locatedL] at h
+    simp only [locPL]
+    exact ⟨ih1 v h.1, fun _ => ih2 v h.2⟩
+  case nil2 => trivial
+  case cons2 => intros; trivial
+
+theorem runL_append_halt (π : Policy) : ∀ (a b : List Ev),
+    (runL π (a ++ b)).2 = ((runL π a).2 || (runL π b).2)
+  | [], b => by simp [runL]
+  | e :: es, b => by
+    simp only [List.cons_append, runL]
+    split
+    · rename_i h; simp [h]
+    · rename_i h; simp [h, runL_append_halt π es b]
+
+theorem locPL_append (π : Policy) (v : J) : ∀ (a b : List Ev),
+    locPL π v a → ((runL π a).2 = false → locPL π v b) → locPL π v (a ++ b)
+  | [], b, _, hb => by simpa using hb (by simp [runL])
+  | e :: es, b, ha, hb => by
+    simp only [locPL] at ha
+    simp only [List.cons_append, locPL]
+    refine ⟨ha.1, fun hs => locPL_append π v es b (ha.2 hs) (fun hes => hb ?_)⟩
+    simp only [runL, hs, Bool.false_eq_true, if_false, hes]
+
+
+
+theorem arrChecks_halt (π : Policy) (kw : Kw) (xs : List J) (q q' : J) :
+    (runL π (checkEvs (arrChecksQ kw xs q))).2 = (runL π (checkEvs (arrChecksQ kw xs q'))).2 := by
+  simp only [arrChecksQ, checkEvs, List.flatMap_cons, List.flatMap_nil, List.append_nil]
+  cases (!kw.permits "array") <;> cases minItemsBad kw xs.length <;> cases maxItemsBad kw xs.length <;>
+    cases (kw.uniqueItems && !uniqueB xs) <;> cases h1 : π.leaf false false <;> cases h2 : π.leaf true false <;>
+    simp [chk, runL, Ev.run, here, typeErr, h1, h2]
+
+theorem objChecks_halt (π : Policy) (kw : Kw) (kvs : List (String × J)) (q q' : J) :
+    (runL π (checkEvs (objChecksQ kw kvs q))).2 = (runL π (checkEvs (objChecksQ kw kvs q'))).2 := by
+  simp only [objChecksQ, checkEvs, List.flatMap_cons, List.flatMap_nil, List.append_nil]
+  cases (!kw.permits "object") <;> cases minPropsBad kw kvs.length <;> cases maxPropsBad kw kvs.length <;>
+    cases h1 : π.leaf false false <;> cases h2 : π.leaf true false <;> simp [chk, runL, Ev.run, here, typeErr, h1, h2]
+
+theorem memberEvs_halt (π : Policy) (has : Option Bool) (props addl : List (String × Out)) (k : String) (q q' : J) :
+    (runL π (memberEvs q has props addl k)).2 = (runL π (memberEvs q' has props addl k)).2 := by
+  unfold memberEvs propEv
+  cases (lookup k props) <;> cases (lookup k addl) <;> cases (has != some false) <;> cases h1 : π.leaf false false <;>
+    simp [runL, Ev.run, here, h1]
+
+
+theorem haltsL_single (m : Mode) (e : Ev) : haltsL m [e] = (e.run m.policy).2 := by
+  unfold haltsL
+  simp only [runL]
+  cases h : (e.run m.policy).2 <;> simp [h]
+
+theorem lookup_done_cons (k : String) (x : J) : ∀ (done rest : List (String × J)), k ∉ keysOf done →
+    lookup k (done ++ (k, x) :: rest) = some x
+  | [], rest, _ => by simp [lookup]
+  | (k0, x0) :: d, rest, h => by
+    simp only [keysOf, List.mem_cons, not_or] at h
+    simp only [List.cons_append, lookup, h.1, if_false]
+    exact lookup_done_cons k x d rest h.2
+
+theorem keysOf_append_cons (k : String) (y : J) (t : List (String × J)) : ∀ (d : List (String × J)),
+    keysOf (d ++ (k, y) :: t) = keysOf d ++ k :: keysOf t
+  | [] => by simp [keysOf]
+  | (a1, a2) :: d => by simp [keysOf, keysOf_append_cons k y t d]
+
+theorem members_locP (m : Mode) (has : Option Bool) (props addl : List (String × Out)) (q : J)
+    (hp : ∀ k o, lookup k props = some o → locPL m.policy o.2 o.1)
+    (ha : ∀ k o, lookup k addl = some o → locPL m.policy o.2 o.1) :
+    ∀ (l done : List (String × J)), (keysOf (done ++ l)).Nodup →
+      q = .obj (done ++ asmKvs m has props addl false l) →
+      locPL m.policy q (kvsEvs q has props addl l)
+  | [], done, _, _ => by simp [kvsEvs, locPL]
+  | (k, x) :: r, done, hn, hq => by
+    simp only [kvsEvs]
+    simp only [asmKvs, Bool.false_eq_true, if_false] at hq
+    have hk : k ∉ keysOf done := by
+      intro hk
+      rw [keysOf_append_cons] at hn
+      exact (List.nodup_append.mp hn).2.2 k hk k (by simp) rfl
+    apply locPL_append
+    · -- the events of this member
+      unfold memberEvs propEv
+      cases h1 : lookup k props with
+      | some o =>
+        simp only [Option.map_some, locPL, Ev.locP, and_true]
+        constructor
+        · right
+          refine ⟨o.2, ?_, hp k o h1⟩
+          rw [hq]; simp only [resolve1]
+          rw [lookup_done_cons k _ done _ hk]
+          simp [propSel, selFin, h1]
+        · intro _; trivial
+      | none =>
+        simp only [Option.map_none]
+        cases hh : (has != some false) with
+        | false =>
+          simp only [Bool.false_eq_true, if_false, locPL, Ev.locP, and_true]
+          exact ⟨loc_here _ _ _, fun _ => trivial⟩
+        | true =>
+          simp only [if_true]
+          cases h2 : lookup k addl with
+          | none => simp [locPL]
+          | some o =>
+            simp only [Option.map_some, locPL, Ev.locP, and_true]
+            constructor
+            · right
+              refine ⟨o.2, ?_, ha k o h2⟩
+              rw [hq]; simp only [resolve1]
+              rw [lookup_done_cons k _ done _ hk]
+              simp [propSel, selFin, h1, h2, hh]
+            · intro _; trivial
+    · intro hs
+      have hstop : haltsL m (memberEvs .null has props addl k) = false := by
+        unfold haltsL; rw [memberEvs_halt m.policy has props addl k .null q]; exact hs
+      rw [hstop] at hq
+      apply members_locP m has props addl q hp ha r (done ++ [(k, selFin (propSel has (lookup k props) (lookup k addl)) x)])
+      · rw [keysOf_append_cons] at hn
+        rw [List.append_assoc]
+        simp only [List.singleton_append]
+        rw [keysOf_append_cons]; exact hn
+      · rw [hq, List.append_assoc]; rfl
+
+theorem getElem?_append_length {α} (done : List α) (x : α) (rest : List α) : (done ++ x :: rest)[done.length]? = some x := by
+  simp
+
+theorem items_locP (m : Mode) : ∀ (xs : List J) (os : List Out) (done : List J) (i : Nat),
+    done.length = i → os.length = xs.length → (∀ o ∈ os, locPL m.policy o.2 o.1) →
+    locPL m.policy (.arr (done ++ asmItems m false i xs os)) (itemEvs i os)
+  | [], [], done, i, _, _, _ => by simp [itemEvs, locPL]
+  | [], o :: os, done, i, _, h, _ => by simp at h
+  | x :: xs, [], done, i, _, h, _ => by simp at h
+  | x :: xs, o :: os, done, i, hd, hl, ho => by
+    simp only [itemEvs, locPL, asmItems, Bool.false_eq_true, if_false]
+    constructor
+    · simp only [Ev.locP]
+      right
+      refine ⟨o.2, ?_, ho o (by simp)⟩
+      simp only [resolve1]
+      rw [← hd]; exact getElem?_append_length done o.2 _
+    · intro hs
+      rw [haltsL_single, hs]
+      have := items_locP m xs os (done ++ [o.2]) (i + 1) (by simp [hd]) (by simpa using hl)
+        (fun o' ho' => ho o' (List.mem_cons_of_mem _ ho'))
+      simpa [List.append_assoc] using this
+
+
+theorem ownD_locP (m : Mode) (env : Env) (kw : Kw) (p : List (String × S)) (v : J)
+    (items : List Out) (props addl : List (String × Out))
+    (hitems : ∀ o ∈ items, locPL m.policy o.2 o.1)
+    (hlen : items = [] ∨ items.length = (itemsOf v).length)
+    (hp : ∀ k o, lookup k props = some o → locPL m.policy o.2 o.1)
+    (ha : ∀ k o, lookup k addl = some o → locPL m.policy o.2 o.1)
+    (hkeys : (keysOf (ownKvs env kw p v)).Nodup) :
+    locPL m.policy (ownD m env kw p v items props addl).2 (ownD m env kw p v items props addl).1 := by
+  cases v with
+  | null => exact (locP_of_located m.policy).2.2 _ _ (ownEvsQ_located env kw p _ _ [] (quotes_self _) (by simp [locatedL]))
+  | bool b => exact (locP_of_located m.policy).2.2 _ _ (ownEvsQ_located env kw p _ _ [] (quotes_self _) (by simp [locatedL]))
+  | num x => exact (locP_of_located m.policy).2.2 _ _ (ownEvsQ_located env kw p _ _ [] (quotes_self _) (by simp [locatedL]))
+  | str x => exact (locP_of_located m.policy).2.2 _ _ (ownEvsQ_located env kw p _ _ [] (quotes_self _) (by simp [locatedL]))
+  | arr xs =>
+    simp only [ownD, arrEvsQ]
+    apply locPL_append
+    · apply (locP_of_located m.policy).2.2
+      apply checkEvs_located
+      intro c hc
+      simp only [arrChecksQ, List.mem_cons, List.mem_nil_iff, or_false] at hc
+      rcases hc with rfl | rfl | rfl | rfl <;> exact loc_here _ _ _
+    · intro hs
+      have hstop : haltsL m (checkEvs (arrChecksQ kw xs .null)) = false := by
+        unfold haltsL; rw [arrChecks_halt m.policy kw xs .null _]; exact hs
+      rw [hstop]
+      rcases hlen with h0 | hl
+      · subst h0; simp [itemEvs, locPL]
+      · have := items_locP m xs items [] 0 rfl (by simpa [itemsOf] using hl) hitems
+        simpa using this
+  | obj kvs =>
+    simp only [ownD, objEvsQ]
+    apply locPL_append
+    · apply locPL_append
+      · apply locPL_append
+        · apply (locP_of_located m.policy).2.2
+          apply checkEvs_located
+          intro c hc
+          simp only [objChecksQ, List.mem_cons, List.mem_nil_iff, or_false] at hc
+          rcases hc with rfl | rfl | rfl <;> exact loc_here _ _ _
+        · intro hs
+          have hstop : haltsL m (checkEvs (objChecksQ kw (ownKvs env kw p (.obj kvs)) .null)) = false := by
+            unfold haltsL; rw [objChecks_halt m.policy kw _ .null _]; exact hs
+          rw [hstop]
+          exact members_locP m kw.addHas props addl _ hp ha (ownKvs env kw p (.obj kvs)) [] (by simpa using hkeys) (by simp)
+      · intro _
+        apply (locP_of_located m.policy).2.2
+        apply checkEvs_located
+        intro c hc
+        simp only [reqChecks, List.mem_map] at hc
+        obtain ⟨k, _, rfl⟩ := hc
+        exact loc_required _ _ _
+    · intro _
+      exact (locP_of_located m.policy).2.2 _ _ (chk_located _ _ _ _ (loc_noValue _ _ rfl rfl))
+
+
+theorem policy_fatal (m : Mode) (s : Bool) : m.policy.leaf true s = true := by
+  cases m <;> simp [Mode.policy]
+
+theorem discEvs_halt (m : Mode) (kw : Kw) (v : J) : (runL m.policy (discEvs kw v)).2 = !(discCheck kw v).pass := by
+  unfold discEvs
+  cases discCheck kw v <;> simp [runL, Ev.run, DiscRes.pass, policy_fatal]
+
+theorem discEvs_nil_of_pass (kw : Kw) (v : J) (h : (discCheck kw v).pass = true) : discEvs kw v = [] := by
+  unfold discEvs
+  cases hd : discCheck kw v <;> simp [hd, DiscRes.pass] at h ⊢
+
+/-- the compositions of a node, as events quoting `q` -/
+def compEvs (kw : Kw) (a b c : List S) (v q : J) (r : Subs) : List Ev :=
+  (match r.rn with
+     | none => []
+     | some o => [.comp .not (here "not" q [.lit "Doesn't match schema \"not\""]) [o.1]]) ++
+   (if c.isEmpty then [] else discEvs kw v ++ [.comp .oneOf (here "oneOf" q (oneOfReason (outsEvs r.ro))) (outsEvs r.ro)]) ++
+   (if b.isEmpty then [] else [.comp .anyOf (here "anyOf" q [.lit "doesn't match any schema from \"anyOf\""]) (outsEvs r.ra)]) ++
+   (if a.isEmpty then [] else [.comp .allOf (here "allOf" q [.lit "doesn't match all schemas from \"allOf\""]) (outsEvs r.rl)])
+
+theorem compEvs_halt (m : Mode) (kw : Kw) (a b c : List S) (v q : J) (r : Subs) :
+    (runL m.policy (compEvs kw a b c v q r)).2 =
+      !(notOK r.rn && oneOK c kw r.ro v && anyOK b r.ra && (a.isEmpty || allOK r.rl)) := by
+  unfold compEvs
+  simp only [runL_append_halt]
+  have h1 : (runL m.policy (match r.rn with
+     | none => []
+     | some o => [Ev.comp CompKind.not (here "not" q [Frag.lit "Doesn't match schema \"not\""]) [o.1]])).2 = !notOK r.rn := by
+    unfold notOK
+    cases r.rn with
+    | none => simp [runL]
+    | some o =>
+      simp only [runL, Ev.run, runCount, (run_agrees m.policy).2.2 o.1]
+      cases passesL o.1 <;> simp [compOK]
+  have h2 : (runL m.policy (if c.isEmpty then [] else discEvs kw v ++ [Ev.comp CompKind.oneOf (here "oneOf" q (oneOfReason (outsEvs r.ro))) (outsEvs r.ro)])).2 =
+      !oneOK c kw r.ro v := by
+    unfold oneOK
+    cases c.isEmpty with
+    | true => simp [runL]
+    | false =>
+      simp only [Bool.false_eq_true, if_false, runL_append_halt, discEvs_halt, Bool.false_or]
+      simp only [runL, Ev.run, (run_agrees m.policy).2.1]
+      cases (discCheck kw v).pass <;> cases hcnt : (passCount (outsEvs r.ro) == 1) <;> simp [compOK, hcnt]
+  have h3 : (runL m.policy (if b.isEmpty then [] else [Ev.comp CompKind.anyOf (here "anyOf" q [Frag.lit "doesn't match any schema from \"anyOf\""]) (outsEvs r.ra)])).2 =
+      !anyOK b r.ra := by
+    unfold anyOK
+    cases b.isEmpty with
+    | true => simp [runL]
+    | false =>
+      simp only [Bool.false_eq_true, if_false, runL, Ev.run, (run_agrees m.policy).2.1, Bool.false_or]
+      by_cases h : 1 ≤ passCount (outsEvs r.ra) <;> simp [compOK, h]
+  have h4 : (runL m.policy (if a.isEmpty then [] else [Ev.comp CompKind.allOf (here "allOf" q [Frag.lit "doesn't match all schemas from \"allOf\""]) (outsEvs r.rl)])).2 =
+      !(a.isEmpty || allOK r.rl) := by
+    unfold allOK
+    cases a.isEmpty with
+    | true => simp [runL]
+    | false =>
+      simp only [Bool.false_eq_true, if_false, runL, Ev.run, (run_agrees m.policy).2.1, Bool.false_or]
+      cases hcnt : (passCount (outsEvs r.rl) == r.rl.length) <;> simp [compOK, outsEvs, hcnt] <;> simp [outsEvs] at hcnt <;> simp [hcnt]
+  rw [h1, h2, h3, h4]
+  cases notOK r.rn <;> cases oneOK c kw r.ro v <;> cases anyOK b r.ra <;> cases (a.isEmpty || allOK r.rl) <;> rfl
+
+
+theorem compEvs_located (kw : Kw) (a b c : List S) (v q : J) (r : Subs)
+    (hd : c.isEmpty = false → (discCheck kw v).pass = false → q = v) : locatedL q (compEvs kw a b c v q r) := by
+  unfold compEvs
+  refine locatedL_append (locatedL_append (locatedL_append ?_ ?_) ?_) ?_
+  · cases r.rn <;> simp [locatedL, Ev.located, loc_here]
+  · cases hc : c.isEmpty with
+    | true => simp [locatedL]
+    | false =>
+      simp only [Bool.false_eq_true, if_false]
+      refine locatedL_append ?_ (by simp [locatedL, Ev.located, loc_here])
+      cases hp : (discCheck kw v).pass with
+      | true => rw [discEvs_nil_of_pass kw v hp]; simp [locatedL]
+      | false => rw [hd hc hp]; exact discEvs_located kw v
+  · cases b.isEmpty <;> simp [locatedL, Ev.located, loc_here]
+  · cases a.isEmpty <;> simp [locatedL, Ev.located, loc_here]
+
+theorem nodeD_locP (m : Mode) (env : Env) (kw : Kw) (a b c : List S) (p : List (String × S)) (sc : Bool) (v : J) (r : Subs)
+    (hl : a.isEmpty = true → r.rl = [])
+    (hown : locPL m.policy
+      (ownD m env kw p (seqFin r.rl (afterAny b r.ra (afterOne c kw r.ro v))) r.items r.props r.addl).2
+      (ownD m env kw p (seqFin r.rl (afterAny b r.ra (afterOne c kw r.ro v))) r.items r.props r.addl).1) :
+    locPL m.policy (nodeD m env kw a b c p sc v r).2 (nodeD m env kw a b c p sc v r).1 := by
+  unfold nodeD
+  split
+  · simp [locPL]
+  · split
+    · cases v.isNull <;> simp [locPL, Ev.locP]
+      exact loc_noValue _ _ rfl rfl
+    · dsimp only
+      generalize hfin : (if (!notOK r.rn) = true then v else
+          if (!oneOK c kw r.ro v) = true then v else
+          if (!anyOK b r.ra) = true then afterOne c kw r.ro v else
+          if (!allOK r.rl) = true then seqFin r.rl (afterAny b r.ra (afterOne c kw r.ro v)) else
+          if (v.isNull && (!c.isEmpty || !b.isEmpty || !a.isEmpty)) = true then seqFin r.rl (afterAny b r.ra (afterOne c kw r.ro v)) else
+          if (!enumOK kw (seqFin r.rl (afterAny b r.ra (afterOne c kw r.ro v)))) = true then seqFin r.rl (afterAny b r.ra (afterOne c kw r.ro v))
+          else (ownD m env kw p (seqFin r.rl (afterAny b r.ra (afterOne c kw r.ro v))) r.items r.props r.addl).2) = fin
+      have hd : c.isEmpty = false → (discCheck kw v).pass = false → fin = v := by
+        intro hc hp
+        rw [← hfin]
+        have : oneOK c kw r.ro v = false := by simp [oneOK, hc, hp]
+        simp only [this]
+        cases notOK r.rn <;> simp
+      show locPL m.policy fin (compEvs kw a b c v fin r ++ _)
+      apply locPL_append
+      · exact (locP_of_located m.policy).2.2 _ _ (compEvs_located kw a b c v fin r hd)
+      · intro hs
+        rw [compEvs_halt] at hs
+        simp only [Bool.not_eq_false', Bool.and_eq_true] at hs
+        obtain ⟨⟨⟨hn, ho⟩, ha⟩, hall⟩ := hs
+        have hall' : allOK r.rl = true := by
+          cases hae : a.isEmpty with
+          | true => rw [hl hae]; exact allOK_nil
+          | false => simpa [hae] using hall
+        split
+        · simp [locPL]
+        · rename_i hskip
+          apply locPL_append
+          · exact (locP_of_located m.policy).2.2 _ _ (chk_located _ _ _ _ (loc_here _ _ _))
+          · intro he
+            have henum : enumOK kw (seqFin r.rl (afterAny b r.ra (afterOne c kw r.ro v))) = true := by
+              unfold enumEvsQ chk at he
+              split at he
+              · simp [runL, Ev.run, policy_fatal] at he
+              · rename_i hb; simpa using hb
+            have : fin = (ownD m env kw p (seqFin r.rl (afterAny b r.ra (afterOne c kw r.ro v))) r.items r.props r.addl).2 := by
+              rw [← hfin]
+              simp [hn, ho, ha, hall', hskip, henum]
+            rw [this]; exact hown
+
+
+theorem visitD_locP_all (m : Mode) (env : Env) :
+    (∀ (s : S) (v : J), WFJ v → s.dfltsWF → locPL m.policy (visitD m env s v).2 (visitD m env s v).1) ∧
+    (∀ (ad : Option S) (_kvs : List (String × J)), dfltsWFO ad →
+        ∀ t, ad = some t → ∀ x, WFJ x → locPL m.policy (visitD m env t x).2 (visitD m env t x).1) ∧
+    (∀ (p : List (String × S)) (_kvs : List (String × J)), dfltsWFP p →
+        ∀ k s, lookup k p = some s → ∀ x, WFJ x → locPL m.policy (visitD m env s x).2 (visitD m env s x).1) ∧
+    (∀ (i : Option S) (_xs : List J), dfltsWFO i →
+        ∀ t, i = some t → ∀ x, WFJ x → locPL m.policy (visitD m env t x).2 (visitD m env t x).1) ∧
+    (∀ (_ss : List S) (_v : J), True) ∧ (∀ (_ss : List S) (_v : J), True) ∧
+    (∀ (_dr : String) (_ss : List S) (_v : J), True) ∧ (∀ (_n : Option S) (_v : J), True) := by
+  refine visitD.mutual_induct m env
+    (motive_1 := fun s v => WFJ v → s.dfltsWF → locPL m.policy (visitD m env s v).2 (visitD m env s v).1)
+    (motive_2 := fun ad _ => dfltsWFO ad → ∀ t, ad = some t → ∀ x, WFJ x → locPL m.policy (visitD m env t x).2 (visitD m env t x).1)
+    (motive_3 := fun p _ => dfltsWFP p → ∀ k s, lookup k p = some s → ∀ x, WFJ x → locPL m.policy (visitD m env s x).2 (visitD m env s x).1)
+    (motive_4 := fun i _ => dfltsWFO i → ∀ t, i = some t → ∀ x, WFJ x → locPL m.policy (visitD m env t x).2 (visitD m env t x).1)
+    (motive_5 := fun _ _ => True) (motive_6 := fun _ _ => True) (motive_7 := fun _ _ _ => True) (motive_8 := fun _ _ => True)
+    ?main ?seqNil ?seqCons ?eachNil ?eachCons ?selNil ?selCons ?adNone ?adSome ?itNone ?itSome ?notNone ?notSome ?pNil ?pCons
+  case seqNil => intros; trivial
+  case seqCons => intros; trivial
+  case eachNil => intros; trivial
+  case eachCons => intros; trivial
+  case selNil => intros; trivial
+  case selCons => intros; trivial
+  case notNone => intros; trivial
+  case notSome => intros; trivial
+  case adNone => intro _ _ t h; cases h
+  case adSome =>
+    intro t kvs ih hs t' ht x hx
+    cases ht
+    exact ih ("", x) hx (by simpa [dfltsWFO] using hs)
+  case itNone => intro _ _ t h; cases h
+  case itSome =>
+    intro t xs ih hs t' ht x hx
+    cases ht
+    exact ih x hx (by simpa [dfltsWFO] using hs)
+  case pNil => intro kvs _ k s h; simp [lookup] at h
+  case pCons =>
+    intro k0 s0 ps kvs ih1 ih2 hs k s hl x hx
+    simp only [dfltsWFP] at hs
+    simp only [lookup] at hl
+    split at hl
+    · cases hl; exact ih1 x hx hs.2.1
+    · exact ih2 hs.2.2 k s hl x hx
+  case main =>
+    intro kw a b c n i p ad v
+    dsimp only
+    intro _ _ _ _ ihi ihp ihad hw hs
+    unfold S.dfltsWF at hs
+    obtain ⟨hsa, hsb, hsc, hsn, hsi, hsp, hsad⟩ := hs
+    have w2 : WFJ (afterOne c kw (selD m env (discCheck kw v).ref c v) v) := by
+      rcases afterOne_cases c kw (selD m env (discCheck kw v).ref c v) v with h | ⟨o, ho, h⟩
+      · rw [h]; exact hw
+      · rw [h]; exact (visitD_wf_all m env).2.2.2.2.2.2.1 _ c v hw hsc o ho
+    unfold visitD
+    simp only []
+    generalize hv2 : afterOne c kw (selD m env (discCheck kw v).ref c v) v = v2 at *
+    have w3 : WFJ (afterAny b (eachD m env b v2) v2) := by
+      rcases afterAny_cases b (eachD m env b v2) v2 with h | ⟨o, ho, h⟩
+      · rw [h]; exact w2
+      · rw [h]; exact (visitD_wf_all m env).2.2.2.2.2.1 b v2 w2 hsb o ho
+    generalize hv3 : afterAny b (eachD m env b v2) v2 = v3 at *
+    have w4 : WFJ (seqFin (seqD m env a v3) v3) := by
+      rcases seqFin_cases (seqD m env a v3) v3 with h | ⟨o, ho, h⟩
+      · rw [h]; exact w3
+      · rw [h]; exact (visitD_wf_all m env).2.2.2.2.1 a v3 w3 hsa o ho
+    generalize hv4 : seqFin (seqD m env a v3) v3 = v4 at *
+    apply nodeD_locP
+    · intro hae
+      have : a = [] := by simpa using hae
+      subst this; simp [seqD]
+    · simp only [hv2, hv3, hv4]
+      apply ownD_locP
+      · intro o ho
+        cases i with
+        | none => simp [itemsD] at ho
+        | some t =>
+          simp only [itemsD, List.mem_map] at ho
+          obtain ⟨x, hx, rfl⟩ := ho
+          have hwx : WFJ x := by
+            cases v4 with
+            | arr xs => simp only [itemsOf] at hx; simp only [WFJ] at w4; exact wfjl_mem w4 x hx
+            | _ => simp [itemsOf] at hx
+          exact ihi hsi t rfl x hwx
+      · cases i with
+        | none => left; simp [itemsD]
+        | some t => right; simp [itemsD]
+      · intro k o ho
+        rw [propsD_lookup] at ho
+        split at ho
+        · rename_i s x hls hlx
+          cases ho
+          have hwx : WFJ x := by
+            cases v4 with
+            | obj kvs =>
+              simp only [WFJ] at w4
+              exact wfjp_mem (ownKvs_wf env kw p kvs hsp w4.1 w4.2).2 (k, x) (lookup_some_mem _ k x hlx)
+            | _ => simp [ownKvs, lookup] at hlx
+          exact ihp hsp k s hls x hwx
+        · cases ho
+      · intro k o ho
+        cases ad with
+        | none => simp [addlD, lookup] at ho
+        | some t =>
+          rw [addlD_lookup, undeclared_lookup] at ho
+          split at ho
+          · cases hl : lookup k (ownKvs env kw p v4) with
+            | none => simp [hl] at ho
+            | some x =>
+              simp only [hl, Option.map_some, Option.some.injEq] at ho
+              subst ho
+              have hwx : WFJ x := by
+                cases v4 with
+                | obj kvs =>
+                  simp only [WFJ] at w4
+                  exact wfjp_mem (ownKvs_wf env kw p kvs hsp w4.1 w4.2).2 (k, x) (lookup_some_mem _ k x hl)
+                | _ => simp [ownKvs, lookup] at hl
+              exact ihad hsad t rfl x hwx
+          · simp at ho
+      · cases v4 with
+        | obj kvs => simp only [WFJ] at w4; exact (ownKvs_wf env kw p kvs hsp w4.1 w4.2).1
+        | _ => simp [ownKvs, keysOf]
+
+/-- **C12, second sentence, under default injection.** In every mode, for every schema (whose defaults are well-formed
+values), every well-formed value and every option set, each reported error carries a pointer that resolves in the
+value AS THE CALLER FINDS IT AFTER VALIDATION (to the enclosing object for a missing required property) and quotes what
+is found there — although the validator mutates the value while it builds the errors. -/
+theorem errors_point_at_data_after_injection (m : Mode) (env : Env) (s : S) (v : J) (hw : WFJ v) (hs : s.dfltsWF) :
+    ∀ e ∈ (validateD m env s v).1.errs, Loc (validateD m env s v).2 e := by
+  unfold validateD
+  exact pointers_located_consumed m _ _ ((visitD_locP_all m env).1 s v hw hs)
+
+
 end KinModel.Schema
